@@ -36,6 +36,8 @@ class FixFloatEqualityTransformer(
                         else cst.UnaryOperation(
                             operator=cst.Not(),
                             expression=isclose_call,
+                            lpar=original_node.lpar,
+                            rpar=original_node.rpar,
                         )
                     )
         return updated_node
